@@ -131,7 +131,7 @@ impl Default for RunOpts {
 /// interpolator, the inner call on a fresh instance of the same configuration
 fn reference_twin(op: &Op) -> Op {
     match &op.call {
-        Call::PrivQuery { inner } => Op { call: (**inner).clone(), ..op.clone() },
+        Call::PrivQuery { inner } | Call::Repeat { inner, .. } => Op { call: (**inner).clone(), ..op.clone() },
         _ => op.clone(),
     }
 }
@@ -559,7 +559,7 @@ fn check_nested(spec: &RunSpec, op: &Op, out: &Outcome, prop: Prop, thread: usiz
     let cfg = &spec.slots[op.slot];
     for n in &out.stub.nested {
         // the nested call ran with the accessor checks of the outer operation: so must its solitary twin
-        let pseudo = Op { slot: op.slot, call: n.call.clone(), plan: vec![], yield_mask: 0, check_acc: op.check_acc, elem_fault: 0 };
+        let pseudo = Op { slot: op.slot, call: n.call.clone(), plan: n.plan.clone(), yield_mask: 0, check_acc: op.check_acc, elem_fault: 0 };
         if prop == Prop::C18 {
             let mut v18 = vec![];
             check_c18(&pseudo, cfg, &n.out, thread, opi, step, &mut v18);
